@@ -198,3 +198,48 @@ theorem encs_wf : ∀ (ks : List Item), validList ks → WFList (encodeList ks)
 end
 
 end Kmip.TTLV
+
+namespace Kmip.TTLV
+
+/-! ### completeness: every well-formed byte string is the encoding of a valid item -/
+
+theorem decodeVal_of_primOk (ty len : Nat) (value : Bytes) (hlen : value.length = len)
+    (h : primOk ty len value) : ∃ v, decodeVal ty len value = some v := by
+  unfold primOk at h
+  rcases h with ⟨rfl, rfl⟩ | ⟨rfl, rfl⟩ | ⟨rfl, h8, hpos⟩ | ⟨rfl, rfl⟩ | ⟨rfl, rfl, hv⟩ | rfl | rfl | ⟨rfl, rfl⟩ | ⟨rfl, rfl⟩
+  · exact ⟨_, by simp [decodeVal]; try rfl⟩
+  · exact ⟨_, by simp [decodeVal]; try rfl⟩
+  · exact ⟨_, by simp [decodeVal, h8, hpos]; try rfl⟩
+  · exact ⟨_, by simp [decodeVal]; try rfl⟩
+  · rcases hv with rfl | rfl
+    · exact ⟨.boolean false, by simp [decodeVal, ofBE]⟩
+    · exact ⟨.boolean true, by simp [decodeVal, ofBE]⟩
+  · exact ⟨_, by simp [decodeVal]; try rfl⟩
+  · exact ⟨_, by simp [decodeVal]; try rfl⟩
+  · exact ⟨_, by simp [decodeVal]; try rfl⟩
+  · exact ⟨_, by simp [decodeVal]; try rfl⟩
+
+mutual
+theorem wf_is_encoding : ∀ (bs : Bytes), WF bs → ∃ i : Item, i.Valid ∧ encode i = bs
+  | _, .prim t ty len value ht hlen hl hp => by
+    obtain ⟨v, hv⟩ := decodeVal_of_primOk ty len value hlen hp
+    obtain ⟨hvalid, htc, hvb⟩ := decodeVal_some ty len value v hlen hl hv
+    refine ⟨.prim t v, ?_, ?_⟩
+    · simp only [Item.Valid]; exact ⟨ht, hvalid⟩
+    · simp only [encode, header, List.append_assoc]
+      rw [htc, hvb, hlen]
+  | _, .struct t body ht hl hb => by
+    obtain ⟨ks, hks, he⟩ := wflist_is_encoding body hb
+    refine ⟨.struct t ks, ?_, ?_⟩
+    · simp only [Item.Valid]; exact ⟨ht, hks, by rw [he]; exact hl⟩
+    · simp only [encode, header, List.append_assoc]
+      rw [he]
+theorem wflist_is_encoding : ∀ (bs : Bytes), WFList bs → ∃ ks : List Item, validList ks ∧ encodeList ks = bs
+  | _, .nil => ⟨[], by simp only [validList], by simp only [encodeList]⟩
+  | _, .cons a b ha hb => by
+    obtain ⟨i, hi, he⟩ := wf_is_encoding a ha
+    obtain ⟨ks, hks, hes⟩ := wflist_is_encoding b hb
+    exact ⟨i :: ks, by simp only [validList]; exact ⟨hi, hks⟩, by simp only [encodeList]; rw [he, hes]⟩
+end
+
+end Kmip.TTLV
